@@ -188,6 +188,10 @@ def sane_container(pp, c):
         return f"negative volume {c.volume!r}"
     if c.volume > c.max_volume * (1 + 1e-12) + 1e-9:
         return f"volume {c.volume!r} exceeds capacity {c.max_volume!r}"
+    if c.max_volume != float('inf'):
+        v = float(ref.volume_stored(pp, c.contents))          # what the contents really occupy, not the cached attribute
+        if v > c.max_volume * (1 + 1e-9) + 1e-6:
+            return f"contents occupying {v!r} exceed the capacity {c.max_volume!r} (stored volume says {c.volume!r})"
     return None
 
 
